@@ -69,6 +69,7 @@ class PlanLog:
         self.returned = False
         self.return_value = None
         self.msg_ids = {}  # id(msg) -> index of first yield
+        self.raised = None  # exception that left the top-level plan
 
     def ev(self, t, **kw):
         kw["t"] = t
@@ -84,6 +85,9 @@ def tap(gen, plog: PlanLog, world=None):
         plog.returned = True
         plog.return_value = s.value
         return s.value
+    except BaseException as e:  # noqa: BLE001
+        plog.raised = e
+        raise
     while True:
         rec = {"i": len(plog.yields), "msg": msg, "ledger": len(world.ledger) if world is not None else None}
         plog.yields.append(rec)
@@ -104,6 +108,9 @@ def tap(gen, plog: PlanLog, world=None):
                 plog.returned = True
                 plog.return_value = s.value
                 return s.value
+            except BaseException as e2:  # noqa: BLE001
+                plog.raised = e2
+                raise
         else:
             rec["resp"] = resp
             rec["ledger_after"] = len(world.ledger) if world is not None else None
@@ -113,6 +120,9 @@ def tap(gen, plog: PlanLog, world=None):
                 plog.returned = True
                 plog.return_value = s.value
                 return s.value
+            except BaseException as e2:  # noqa: BLE001
+                plog.raised = e2
+                raise
 
 
 class Interp:
@@ -189,12 +199,16 @@ class Interp:
     def _try(self, node):
         _, body, handlers, final = node
         nid = id(node)
+        self.plog.ev("try_enter", node=nid, has_final=final is not None)
+        closing = False
         try:
             try:
                 return (yield from self.gen(body))
             except _Return:
                 raise
             except GeneratorExit:
+                # like finalize_wrapper: no cleanup messages when the generator is being closed / halted
+                closing = True
                 self.plog.ev("generator_exit", node=nid)
                 raise
             except BaseException as e:  # noqa: BLE001
@@ -210,7 +224,7 @@ class Interp:
                         raise
                 raise
         finally:
-            if final is not None:
+            if final is not None and not closing:
                 self.plog.ev("finally", node=nid)
                 yield from self.gen(final)
                 self.plog.ev("finally_done", node=nid)
@@ -247,6 +261,7 @@ class Interp:
             g = bpp.lazily_stage_wrapper(b)
         elif name == "finalize":
             fp = params["final_plan"]
+            self.plog.ev("wrap_enter", label="finalize")
             g = bpp.finalize_wrapper(b, lambda: self._cleanup(fp, "finalize"), pause_for_debug=False)
         elif name == "contingency":
             kw = {}
@@ -258,6 +273,7 @@ class Interp:
                 kw["else_plan"] = lambda: self._cleanup(lp, "contingency_else")
             if params.get("final_plan") is not None:
                 fp = params["final_plan"]
+                self.plog.ev("wrap_enter", label="contingency_final")
                 kw["final_plan"] = lambda: self._cleanup(fp, "contingency_final")
             g = bpp.contingency_wrapper(b, auto_raise=p.get("auto_raise", True), **kw)
         elif name == "subs":
